@@ -601,6 +601,51 @@ def hostile_modules():
     return n, bad
 
 
+def failing_frame_sources():
+    """a built-in frame source that cannot go on keeps what it had produced: a StackSlice naming two frames that are not
+    on one call chain (two unrelated suspended generators), given directly and returned by an elaborate_frame hook"""
+    bad = []
+
+    def a():
+        yield 1
+
+    def b():
+        yield 2
+
+    def holder():
+        yield 3
+    ga, gb, gh = a(), b(), holder()
+    for g in (ga, gb, gh):
+        next(g)
+    sl = stackscope.StackSlice(outer=ga.gi_frame, inner=gb.gi_frame)
+    try:
+        with warnings.catch_warnings(record=True):
+            warnings.simplefilter("always")
+            st = stackscope.extract(sl)
+        if [f.pyframe for f in st.frames] != [ga.gi_frame] or st.error is None:
+            bad.append("StackSlice(outer, inner) not on one call chain: frames %s error %r (expected the outer frame and a recorded error)"
+                       % ([f.funcname for f in st.frames], st.error))
+        "".join(st.format())
+    except BaseException as ex:
+        bad.append("StackSlice(outer, inner) not on one call chain: extract raised %r" % (ex,))
+
+    @stackscope.elaborate_frame.register(holder)
+    def _hook(frame, next_inner):
+        return sl
+    try:
+        with warnings.catch_warnings(record=True):
+            warnings.simplefilter("always")
+            st = stackscope.extract(gh)
+        if [f.pyframe for f in st.frames] != [gh.gi_frame, ga.gi_frame] or st.error is None:
+            bad.append("a hook returns a StackSlice that fails after its first frame: frames %s error %r (expected holder, a and a recorded error)"
+                       % ([f.funcname for f in st.frames], st.error))
+    except BaseException as ex:
+        bad.append("a hook returns a failing StackSlice: extract raised %r" % (ex,))
+    for g in (ga, gb, gh):
+        g.close()
+    return 2, bad
+
+
 def main():
     max_k = int(sys.argv[2]) if len(sys.argv) > 2 else 0
     rec = rec_m1.Recorder()
@@ -614,7 +659,8 @@ def main():
     rec.uninstall()
     n, bad = arbitrary_objects()
     n2, bad2 = hostile_modules()
-    out["objects"] = {"n": n + n2, "bad": bad + bad2}
+    n3, bad3 = failing_frame_sources()
+    out["objects"] = {"n": n + n2 + n3, "bad": bad + bad2 + bad3}
     json.dump(out, open(sys.argv[1], "w"))
 
 
